@@ -133,8 +133,8 @@ func (obj List) LoadForm() Object {
 	return form
 }
 
-// elementLoadForm returns the load form of an element of a list or of a value
-// of a hash-table. A symbol as data has to be quoted unless it is a keyword.
+// elementLoadForm returns the load form of an element of a list or of a key or
+// value of a hash-table. A symbol as data has to be quoted unless it is a keyword.
 // It panics if the element has no load form.
 func elementLoadForm(obj Object) (form Object) {
 	switch to := obj.(type) {
